@@ -114,34 +114,51 @@ def mk_tf(rank, large_axes):
   return t
 
 
-def t_tf_update(ctx, it):
-  """The whole _update on a (2*B, 3) parameter: output rows of block b0 read block b0 only."""
-  sh = it.load_module(TS)
-  B = 4
-  q = spec.fresh_int("q", lo=1)
-  opts = sh.Options(block_size=B)
-  shape = (q * B, 3)
-  gfull = deps.register_input(T.opaque("g", shape), "g")
-  stats = [deps.register_input(T.opaque("stats0", (q, B, B)), "stats0"), deps.register_input(T.opaque("stats1", (q, 3, 3)), "stats1")]
-  roots = [deps.register_input(T.opaque("roots0", (q, B, B)), "roots0"), deps.register_input(T.opaque("roots1", (q, 3, 3)), "roots1")]
-  st = sh._ShampooState(count=T.asarray(spec.fresh_int("count", lo=0)), blocks=sh._AxesBlocks(stats, roots))
-  upd, new = sh._update(opts, gfull, st)
-  b0 = spec.fresh_int("b0")
-  r = spec.fresh_int("r")
-  c_ = spec.fresh_int("c")
-  ctx.assume(sym.sand(b0 >= 0, b0 < q, r >= 0, r < B, c_ >= 0, c_ < 3))
-  val = upd.at((b0 * B + r, c_))
-  rd = deps.collect(val)
-  conds = []
-  for name, args in rd.items:
-    if name == "g":
-      row = SInt(args[0])
-      conds.append(sym.sand(row >= b0 * B, row < (b0 + 1) * B))
-    else:
-      conds.append(SBool(args[0] == b0.z))
-  ctx.oblige("tearfree.shampoo._update.frame: the update of block b0 reads gradient rows and state of block b0 only",
-             sym.sand(*conds) if conds else True, kind="frame", detail=f"{len(conds)} reads")
-  ctx.oblige("tearfree.shampoo._update.frame: non-vacuity", len(conds) > 0, kind="frame")
+def mk_tf_update(rank, large_axes):
+  """The whole _update (blockify -> statistics -> roots -> precondition -> deblockify) on a parameter whose large
+  axes hold a symbolic number of blocks: the output entries of block (b_a)_a read the gradient box and the state
+  rows of that block only."""
+
+  def t(ctx, it):
+    sh = it.load_module(TS)
+    B = 4
+    opts = sh.Options(block_size=B)
+    q = {a: spec.fresh_int(f"q{a}", lo=1) for a in large_axes}
+    shape = tuple(q[a] * B if a in large_axes else 3 for a in range(rank))
+    nb = 1
+    for a in large_axes:
+      nb = nb * q[a]
+    bsz = tuple(B if a in large_axes else 3 for a in range(rank))
+    gfull = deps.register_input(T.opaque("g", shape), "g")
+    stats = [deps.register_input(T.opaque(f"stats{a}", (nb, d, d)), f"stats{a}") for a, d in enumerate(bsz)]
+    roots = [deps.register_input(T.opaque(f"roots{a}", (nb, d, d)), f"roots{a}") for a, d in enumerate(bsz)]
+    st = sh._ShampooState(count=T.asarray(spec.fresh_int("count", lo=0)), blocks=sh._AxesBlocks(stats, roots))
+    upd, new = sh._update(opts, gfull, st)
+    bidx = {a: spec.fresh_int(f"b{a}") for a in large_axes}
+    flat = 0
+    for a in large_axes:
+      ctx.assume(sym.sand(bidx[a] >= 0, bidx[a] < q[a]))
+      flat = flat * q[a] + bidx[a]
+    oidx = []
+    for a in range(rank):
+      r = spec.fresh_int(f"r{a}")
+      ctx.assume(sym.sand(r >= 0, r < bsz[a]))
+      oidx.append(bidx[a] * B + r if a in large_axes else r)
+    val = upd.at(tuple(oidx))
+    rd = deps.collect(val)
+    conds = []
+    for name, args in rd.items:
+      if name == "g":
+        for a in large_axes:
+          x = SInt(args[a])
+          conds.append(sym.sand(x >= bidx[a] * B, x < (bidx[a] + 1) * B))
+      else:
+        conds.append(SBool(args[0] == sym._as_int_z(flat)))
+    ctx.oblige("tearfree.shampoo._update.frame: the update of a block reads the gradient box and the state of that block only",
+               sym.sand(*conds) if conds else True, kind="frame", detail=f"{len(conds)} reads")
+    ctx.oblige("tearfree.shampoo._update.frame: non-vacuity", len(conds) > 0, kind="frame")
+
+  return t
 
 
 def t_ds_blocks(ctx, it):
@@ -196,7 +213,8 @@ def tasks(tier):
   ts = []
   for rank, la in ((1, (0,)), (2, (0,)), (2, (1,)), (2, (0, 1)), (2, ()), (3, (0, 2))):
     ts.append(Task(f"tearfree shampoo locality[rank={rank},large_axes={la}]", mk_tf(rank, la)))
-  ts.append(Task("tearfree shampoo _update locality", t_tf_update))
+  for rank, la in ((2, (0,)), (2, (0, 1)), (3, (0, 2)), (3, (1, 2))):
+    ts.append(Task(f"tearfree shampoo _update locality[rank={rank},large_axes={la}]", mk_tf_update(rank, la)))
   ts.append(Task("distributed shampoo block locality", t_ds_blocks))
   return ts
 
